@@ -804,7 +804,7 @@ def run(ctx):
     nmax = ctx.scale(64, 128)
     big = [1024, 1025, 2049, 4097, 1031, 3000, 4096] + ([] if ctx.quick else [8193, 16385, 10007, 2048, 5000, 997])
     scen = corpus() + special_scenarios(rng) + large_scenarios(rng, big, kcase_sizes=(257, 258)) + \
-        [gen_scenario(rng, nmax, i) for i in range(ctx.scale(70, 320))]
+        [gen_scenario(rng, nmax, i) for i in range(ctx.scale(60, 320))]
     cases, results = [], []
     skipped = {"fourier-float-boundary": 0}
     for s in scen:
